@@ -11,6 +11,10 @@ import (
 
 func init() { register("C13", checkC13) }
 
+// depthHolder: the struct that holds the macro depth counter (ExecutionContext itself, or the per-rendering record it
+// points to); set by resolveMacroAnchors.
+var depthHolder = "ExecutionContext"
+
 type macroAnchors struct {
 	depthField string
 	bodies     []*ssa.Function // functions that execute a macro's wrapper
@@ -18,12 +22,28 @@ type macroAnchors struct {
 
 func resolveMacroAnchors(p *Prog, a *Anchors, r *Report) *macroAnchors {
 	ma := &macroAnchors{}
-	// depth counter: the int field of ExecutionContext
+	// depth counter: an int field of ExecutionContext, or of a record the context points to (what all contexts of a
+	// rendering share)
+	type hf struct{ holder, field string }
+	var ints []hf
+	intFields := func(n *types.Named) {
+		st, ok := n.Underlying().(*types.Struct)
+		if !ok {
+			return
+		}
+		for i := 0; i < st.NumFields(); i++ {
+			if b, ok := st.Field(i).Type().Underlying().(*types.Basic); ok && b.Info()&types.IsInteger != 0 {
+				ints = append(ints, hf{n.Obj().Name(), st.Field(i).Name()})
+			}
+		}
+	}
+	intFields(a.ExecCtx)
 	st := a.ExecCtx.Underlying().(*types.Struct)
-	var ints []string
 	for i := 0; i < st.NumFields(); i++ {
-		if b, ok := st.Field(i).Type().Underlying().(*types.Basic); ok && b.Info()&types.IsInteger != 0 {
-			ints = append(ints, st.Field(i).Name())
+		if pt, ok := st.Field(i).Type().(*types.Pointer); ok {
+			if n, ok := pt.Elem().(*types.Named); ok && n.Obj().Pkg() == a.ExecCtx.Obj().Pkg() && n != a.Template {
+				intFields(n)
+			}
 		}
 	}
 	if p.Named("tagMacroNode") == nil {
@@ -33,14 +53,24 @@ func resolveMacroAnchors(p *Prog, a *Anchors, r *Report) *macroAnchors {
 	if len(ints) > 1 {
 		// several counters: the macro depth is the one that is incremented (x = x + 1) in a function that executes
 		// a macro's body
-		var cands []string
+		var cands []hf
 		p.EachInstr(func(f *ssa.Function, in ssa.Instruction) {
 			st, ok := in.(*ssa.Store)
 			if !ok {
 				return
 			}
 			fa, ok := st.Addr.(*ssa.FieldAddr)
-			if !ok || structOf(fa.X.Type()) != a.ExecCtx {
+			if !ok || structOf(fa.X.Type()) == nil {
+				return
+			}
+			cand := hf{structOf(fa.X.Type()).Obj().Name(), fieldName(fa.X.Type(), fa.Field)}
+			known := false
+			for _, c := range ints {
+				if c == cand {
+					known = true
+				}
+			}
+			if !known {
 				return
 			}
 			bo, ok := st.Val.(*ssa.BinOp)
@@ -49,27 +79,29 @@ func resolveMacroAnchors(p *Prog, a *Anchors, r *Report) *macroAnchors {
 			}
 			// … in a function that runs a macro's body (or calls, one hop, the function that does), or in a step helper
 			// (enterMacroCall) that such a function calls
-			execsBody := macroBodyExecutor(p, f) || steppedByExecutor(p, st, fieldName(fa.X.Type(), fa.Field))
+			depthHolder = cand.holder
+			execsBody := macroBodyExecutor(p, f) || steppedByExecutor(p, st, cand.field)
 			if execsBody {
-				name := fieldName(fa.X.Type(), fa.Field)
 				dup := false
 				for _, c := range cands {
-					if c == name {
+					if c == cand {
 						dup = true
 					}
 				}
 				if !dup {
-					cands = append(cands, name)
+					cands = append(cands, cand)
 				}
 			}
 		})
 		ints = cands
 	}
 	if len(ints) != 1 {
-		r.Unk("anchor", "-", "anchor unresolved: macro depth counter (exactly one integer field of ExecutionContext that the macro body executor increments expected, found %v)", ints)
+		depthHolder = "ExecutionContext"
+		r.Unk("anchor", "-", "anchor unresolved: macro depth counter (exactly one integer field of ExecutionContext, or of a record it points to, that the macro body executor increments expected, found %v)", ints)
 		return nil
 	}
-	ma.depthField = ints[0]
+	depthHolder = ints[0].holder
+	ma.depthField = ints[0].field
 	p.EachInstr(func(f *ssa.Function, in ssa.Instruction) {
 		ci, ok := in.(ssa.CallInstruction)
 		if !ok {
@@ -118,7 +150,7 @@ func depthCmp(c ssa.Value, field string) (withinWhen bool, capv int64, ok bool) 
 		}
 	}
 	kv, isConst := constInt(k)
-	if !isConst || !loadsField(ld, "ExecutionContext", field) {
+	if !isConst || !loadsField(ld, depthHolder, field) {
 		return false, 0, false
 	}
 	switch op {
@@ -132,7 +164,7 @@ func depthCmp(c ssa.Value, field string) (withinWhen bool, capv int64, ok bool) 
 
 func isDepthStore(in ssa.Instruction, field string, op token.Token) bool {
 	st, ok := in.(*ssa.Store)
-	if !ok || !isFieldAddrOf(st.Addr, "ExecutionContext", field) {
+	if !ok || !isFieldAddrOf(st.Addr, depthHolder, field) {
 		return false
 	}
 	b, ok := st.Val.(*ssa.BinOp)
@@ -140,7 +172,7 @@ func isDepthStore(in ssa.Instruction, field string, op token.Token) bool {
 		return false
 	}
 	k, isConst := constInt(b.Y)
-	return isConst && k == 1 && loadsField(b.X, "ExecutionContext", field)
+	return isConst && k == 1 && loadsField(b.X, depthHolder, field)
 }
 
 // guardedSite: instruction `site` in function g is preceded on every path by an increment of the depth counter
@@ -148,7 +180,7 @@ func isDepthStore(in ssa.Instruction, field string, op token.Token) bool {
 func guardedSite(p *Prog, g *ssa.Function, site ssa.Instruction, field string) (bool, string) {
 	inc := MustPass(site, func(x ssa.Instruction) bool { return isDepthStep(p, x, field, token.ADD) })
 	if !inc {
-		return false, "no increment of ExecutionContext." + field + " on every path to it"
+		return false, "no increment of " + depthHolder + "." + field + " on every path to it"
 	}
 	var capv int64
 	cmp := Guarded(site, func(c ssa.Value, pol bool) bool {
@@ -159,7 +191,7 @@ func guardedSite(p *Prog, g *ssa.Function, site ssa.Instruction, field string) (
 		return false
 	})
 	if !cmp {
-		return false, "not restricted to the within-cap edge of a comparison of ExecutionContext." + field + " with a constant"
+		return false, "not restricted to the within-cap edge of a comparison of " + depthHolder + "." + field + " with a constant"
 	}
 	// find the comparison's exceeding edge and check that it returns an error
 	cmpBlock, cmpIdx := depthExceedingEdge(p, g, field)
@@ -182,7 +214,7 @@ func checkC13(p *Prog, r *Report) {
 	if ma == nil {
 		return
 	}
-	r.Trivial("anchors", "-", "depth counter ExecutionContext.%s; %d function(s) execute a macro body", ma.depthField, len(ma.bodies))
+	r.Trivial("anchors", "-", "depth counter %s.%s; %d function(s) execute a macro body", depthHolder, ma.depthField, len(ma.bodies))
 
 	ruleC13Guard(p, a, ma, r, "R-C13-GUARD")
 
